@@ -262,6 +262,21 @@ func TestC34_RaceWorkload(t *testing.T) {
 			}
 			unknown = append(unknown, k)
 		}
+		// lock-discipline reports (c34_lock_test.go)
+		verifLockMu.Lock()
+		var lockSigs []string
+		for k := range verifLockReports {
+			lockSigs = append(lockSigs, k)
+		}
+		verifLockMu.Unlock()
+		sort.Strings(lockSigs)
+		for _, k := range lockSigs {
+			fmt.Printf("C34-LOCK %s\n%s\n", k, verifLockReports[k])
+		}
+		if len(lockSigs) > 0 {
+			vk.Flush()
+			t.Fatalf("deadlock hazard - a goroutine re-acquires a reader/writer lock it already holds (blocks for ever once a writer queues in between): %s", strings.Join(lockSigs, "; "))
+		}
 		vk.Flush()
 		if len(unknown) > 0 {
 			for _, k := range unknown {
@@ -340,13 +355,24 @@ func TestC34_RaceWorkload(t *testing.T) {
 
 		// workload
 		kinds := []string{"tun", "tun", "tun", "tunBurst", "rehandshake", "close", "closeAll", "reloadFirewall", "reloadLighthouse", "reloadPunchy", "reloadStaticMap",
-			"listHosts", "listIndexes", "getHostInfo", "queryLH", "rebind", "setRemote", "printTunnel", "certByAddr"}
+			"listHosts", "listIndexes", "getHostInfo", "queryLH", "rebind", "setRemote", "printTunnel", "certByAddr", "crossRehandshake", "crossRehandshake"}
 		nWorkers := rapid.IntRange(2, 6).Draw(rt, "workers")
 		work := make([][]c34Op, nWorkers)
 		distinct := map[string]bool{}
+		// in a quarter of the cases every worker pauses once for about two seconds somewhere in
+		// its list, so that the periodic work (connection manager traffic checks and primary swaps,
+		// lighthouse updates; 1 s here) runs while tunnels, duplicate tunnels and traffic exist
+		long := rapid.IntRange(0, 3).Draw(rt, "long") == 0
 		for wi := range work {
 			nops := rapid.IntRange(5, 40).Draw(rt, "nops")
+			lingerAt := -1
+			if long {
+				lingerAt = rapid.IntRange(0, nops-1).Draw(rt, "lingerAt")
+			}
 			for k := 0; k < nops; k++ {
+				if k == lingerAt {
+					work[wi] = append(work[wi], c34Op{Kind: "linger"})
+				}
 				op := c34Op{Kind: rapid.SampledFrom(kinds).Draw(rt, "kind"), Node: rapid.IntRange(0, len(nodes)-1).Draw(rt, "node"),
 					Peer: rapid.IntRange(0, len(nodes)-1).Draw(rt, "peer"), N: rapid.IntRange(1, 20).Draw(rt, "n"), Yield: rapid.IntRange(0, 3).Draw(rt, "yield")}
 				work[wi] = append(work[wi], op)
@@ -434,6 +460,24 @@ func TestC34_RaceWorkload(t *testing.T) {
 						n.ctrl.RebindUDPServer()
 					case "setRemote":
 						_ = n.ctrl.SetRemoteForTunnel(p.addr, p.udp)
+					case "linger":
+						time.Sleep(2200 * time.Millisecond) // check interval 1 s + timer wheel granularity 0.5 s + slack
+					case "crossRehandshake":
+						// both ends start a new handshake with each other at the same moment and keep talking: each
+						// may end up with its own tunnel as primary while the peer sends on the other one - the
+						// situation the connection manager's primary swap exists for
+						if n != p {
+							var cw sync.WaitGroup
+							cw.Add(1)
+							go func() { defer cw.Done(); p.ctrl.ReHandshake(n.addr) }()
+							n.ctrl.ReHandshake(p.addr)
+							cw.Wait()
+							for i := 0; i < 3; i++ {
+								n.ctrl.InjectTunPacket(nsUDP4(n.addr, p.addr, uint16(3000+k), uint16(4000+i), []byte("c34 cross traffic")))
+								p.ctrl.InjectTunPacket(nsUDP4(p.addr, n.addr, uint16(3000+k), uint16(4000+i), []byte("c34 cross traffic")))
+								time.Sleep(2 * time.Millisecond)
+							}
+						}
 					case "printTunnel":
 						_ = n.ctrl.PrintTunnel(p.addr)
 					case "certByAddr":
